@@ -190,6 +190,9 @@ class Executor(object):
         if isinstance(v, VTuple):
             return tm.B(len(v.items) > 0)
         if isinstance(v, VDict):
+            if st.get(v, "arr") is not None:
+                from . import models_moclo as _mm
+                return tm.ne(st.get(v, "arr").t, tm.constarr(_mm.MAP, _mm.ABSENT))
             return tm.B(len(st.get(v, "items")) > 0)
         if isinstance(v, VObj):
             t = self.models.truth(self, st, v)
@@ -748,6 +751,10 @@ class Executor(object):
                         return [(st, "ok", VTuple(items[sl]))]
                     st, l2 = self.new_list(st, items[sl])
                     return [(st, "ok", l2)]
+        if isinstance(v, VDict) and (st.get(v, "arr") is not None or isinstance(idx, VObj)):
+            m = self.models.value_method(self, st, v, "get")
+            from . import models_moclo as _mm
+            return _mm._wrap_dict_method("__getitem__", None)(self, st, fr, v, [idx], {})
         if isinstance(v, VDict):
             items = st.get(v, "items")
             if isinstance(idx, VT) and tm.is_const(idx.t):
@@ -1020,6 +1027,12 @@ class Executor(object):
         res = []
         conds = []
         for (excname, cond, mkargs) in con.raises(self, st, env):
+            if cond is None:
+                s2 = con.exc_state(self, st, env, excname) if hasattr(con, "exc_state") else st
+                eargs = mkargs(self, s2, env) if mkargs else ()
+                s2, e = self.exc(s2, excname, eargs)
+                res.append((s2, "raise", e))
+                continue
             cond = tm.lift(cond)
             if tm.is_const(cond) and not tm.cval(cond):
                 continue
@@ -1326,7 +1339,7 @@ class Executor(object):
                     hints = spec.hints(self, s2, ctx2) if hasattr(spec, "hints") else []
                     for (label, inv) in spec.invariant(self, s2, ctx2):
                         self.emit("%s:preserve:%s" % (tag, label), s2, inv, text="loop invariant preserved",
-                                  extra_hyps=hints)
+                                  extra_hyps=hints, meta=dict(needs_aux=bool(hints)))
                     if hasattr(spec, "decreases"):
                         before, after = spec.decreases(self, s, s2, ctx)
                         self.emit("%s:decreases" % tag, s2, tm.and_(tm.lt(after, before), tm.le(0, after)),
